@@ -4,7 +4,7 @@ CONSTANTS
   Asset = {"a0", "a5"}
   PnLs <- PnLsQuick
   Costs = {10}
-  Bals = {5, 7}
+  Bals = {5}
   Vals = {}
   MaxClosed = 5
   MaxBal = 1
@@ -12,7 +12,7 @@ CONSTANTS
   Gaps = {1}
   RFs <- RFsZero
   Ivs = {"Daily"}
-INVARIANTS TypeC16 GenerateIsBatch AccSheet WinRateSane ProfitFactorSane OrderFreeC16
-PROPERTIES Keyed Additive LatestBalance PersistIsStutter
+INVARIANTS TypeC16 GenerateIsBatch AccSheet AccReturns WinRateSane ProfitFactorSane OrderFreeC16
+PROPERTIES Keyed Additive LatestBalance EveryBalanceCounts PersistIsStutter
 CHECK_DEADLOCK FALSE
 VIEW View
